@@ -370,17 +370,35 @@ PLANS = {
 }
 
 
+class _Collect:
+    """stands in for ctx inside explore(): buffers the reports so that they reach the real ctx in an
+    order (and with a first case per key) that does not depend on VERIF_SEED's frontier rotation"""
+
+    def __init__(self, ctx):
+        self.seed, self.outcomes, self.stats, self.sample = ctx.seed, ctx.outcomes, ctx.stats, ctx.sample
+        self.buf = []
+
+    def report(self, key, what, case):
+        self.buf.append((key, len(case["hist"]), repr(case), what, case))
+
+    def flush(self, ctx):
+        for key, _n, _r, what, case in sorted(self.buf, key=lambda x: x[:3]):
+            ctx.report(key, what, case)
+
+
 def run(ctx):
     tot = {"states": 0, "transitions": 0}
     per = {}
     exhaustive = True
+    col = _Collect(ctx)
     for name, roots, depth in PLANS[ctx.tier]:
-        res = explore.explore(Model(roots), ctx, depth, label=name)
+        res = explore.explore(Model(roots), col, depth, label=name)
         per[name] = {k: res[k] for k in ("states", "transitions", "depth_completed", "fixpoint", "roots", "frontier_left")}
         per[name]["depth_bound"] = depth
         tot["states"] += res["states"]
         tot["transitions"] += res["transitions"]
         exhaustive = exhaustive and (res["fixpoint"] or res["depth_completed"] == depth) and not res["capped"]
+    col.flush(ctx)
     ctx.coverage.update(
         states=tot["states"],
         transitions=tot["transitions"],
